@@ -188,8 +188,10 @@ def compare(case, om, oi):
     if kind == "rgbwtemp":
         # C against C and the property's own clause: reference-colour method never exceeds the original channels
         f = oi.split(" ")
-        if len(f) != 4:
+        if len(f) != 5:
             return "unexpected output %s" % oi
+        if f[4] != "hist-same":
+            return "a converter set to this colour temperature, then configured otherwise, then set to the same temperature again converts differently from a fresh one: %s" % oi
         out = [int(x) for x in f[1].split(",")]
         orig = [int(x) for x in w[2:5]]
         if f[2] != "same":
